@@ -3,6 +3,7 @@ package main
 // Group pktz: C07 (sequencer) and C06 (packetizer).  Token formats: lean/Driver/Kinds/Pktz.lean.
 
 import (
+	"runtime"
 	"sort"
 	"strings"
 	"sync"
@@ -150,6 +151,23 @@ type seqCall struct {
 // Every call is bracketed by two draws from one global atomic ticket counter, so
 // `a.after < b.before` implies that a returned before b was invoked.
 func stressSeq(s rtp.Sequencer, progs []string) [][]seqCall {
+	return stressSeqJitter(s, progs, nil)
+}
+
+// spin burns a little time (keeps a call "in flight" longer so that more calls overlap).
+//
+//go:noinline
+func spin(n int) int {
+	x := 0
+	for i := 0; i < n; i++ {
+		x += i ^ (x >> 3)
+	}
+	return x
+}
+
+// stressSeqJitter: as stressSeq; jitter[g] > 0 makes goroutine g dawdle (spin or yield) between
+// drawing a ticket and making / after making the call, about once every jitter[g] calls.
+func stressSeqJitter(s rtp.Sequencer, progs []string, jitter []int) [][]seqCall {
 	var ticket atomic.Uint64
 	out := make([][]seqCall, len(progs))
 	start := make(chan struct{})
@@ -163,19 +181,39 @@ func stressSeq(s rtp.Sequencer, progs []string) [][]seqCall {
 		go func() {
 			defer wg.Done()
 			<-start
+			jit := 0
+			if gi < len(jitter) {
+				jit = jitter[gi]
+			}
+			sink := 0
 			for k := 0; k < len(prog); k++ {
+				dawdle := jit > 0 && (k*7+gi)%jit == 0
 				if prog[k] == 'n' {
 					b := ticket.Add(1)
+					if dawdle {
+						if k%2 == 0 {
+							runtime.Gosched()
+						} else {
+							sink += spin(200 + (k%5)*300)
+						}
+					}
 					v := s.NextSequenceNumber()
+					if dawdle && k%3 == 0 {
+						runtime.Gosched()
+					}
 					a := ticket.Add(1)
 					rec[k] = seqCall{'n', b, a, uint64(v)}
 				} else {
 					b := ticket.Add(1)
+					if dawdle {
+						runtime.Gosched()
+					}
 					v := s.RollOverCount()
 					a := ticket.Add(1)
 					rec[k] = seqCall{'r', b, a, v}
 				}
 			}
+			_ = sink
 		}()
 	}
 	close(start)
@@ -195,7 +233,15 @@ func genC07Hist(x *Ctx) {
 				progs[i] = randOps(c.R, n/g+c.R.Intn(3), 1, rocDen)
 			}
 			c.Tag(tag)
-			hist := stressSeq(rtp.NewFixedSequencer(uint16(s0)), progs)
+			var jitter []int
+			if c.R.Bool() {
+				jitter = make([]int, g)
+				for i := range jitter {
+					jitter[i] = c.R.Pick(0, 0, 3, 17, 101)
+				}
+				c.Tag("jitter")
+			}
+			hist := stressSeqJitter(rtp.NewFixedSequencer(uint16(s0)), progs, jitter)
 			cnt := 0
 			for _, h := range hist {
 				cnt += len(h)
